@@ -159,14 +159,18 @@ def leafWalk (root : Nat) : List (Nat × Nat) → List Instr
   | (leaf, rows) :: rest =>
     (if leaf = root then [] else fetch leaf .R) ++ rowReads leaf rows ++ (if leaf = root then [] else [.rel leaf]) ++ leafWalk root rest
 
-/-- `SeqScan::open` + `next` (sequential scan of a table), `iter_forward` (bplustree.rs:612-627):
-    1. `is_empty` latches the root, `get_left_most` walks down the left-most path `root :: path` releasing as it goes;
-    2. `BtreePositionalIterator::from_position` builds a new accessor: `is_empty` latches the **root again and keeps it**
-       until the iterator is dropped, `validate` latches the first leaf;
-    3. the leaf walk; 4. drop of the iterator: everything is released.
-    `leaves` = (leaf page, number of rows read on it); a single-page table has `leaves = [(root, n)]`. -/
+/-- `SeqScan::open` + `next` (sequential scan of a table), `iter_forward` (bplustree.rs):
+    1. `is_empty` of the caller's tree object latches the root; `iter_forward` lets go of it again;
+    2. the tree object the iterator will own latches the **root and keeps it** until the iterator is dropped, and walks
+       down the left-most path `path` (interior pages and the first leaf) under it, releasing each page before the next
+       is fetched (`get_left_most`);
+    3. `BtreePositionalIterator::from_position` on that same object: `validate` latches the first leaf; the leaf walk;
+    4. drop of the iterator: everything is released.
+    (As shipped the descent of step 2 ran on the caller's object and released the root too: the root could split between
+    the descent and step 3 — `Btree iterator received an invalid position`; repaired, and not a matter of deadlocks.)
+    `leaves` = (leaf page, number of rows read on it); a single-page table has `path = []`, `leaves = [(root, n)]`. -/
 def readerScan (root : Nat) (path : List Nat) (leaves : List (Nat × Nat)) : List Instr :=
-  readerDescent (root :: path) ++ fetch root .R ++ leafWalk root leaves ++ [.relAll]
+  readerDescent [root] ++ fetch root .R ++ readerDescent path ++ leafWalk root leaves ++ [.relAll]
 
 /-- point lookup with a read accessor (`search` / `page_search`, bplustree.rs:248-298; catalog `get_relation`,
     `bind_relation`): every page of the path is latched and kept until the tree object is dropped. -/
